@@ -143,7 +143,7 @@ func TestVerif_C14_containers(t *testing.T) {
 		if st.Fmt == "zstd" && st.Fin != io.EOF && x.term == "eof" {
 			// klauspost zstd frameDec.reset turns the source's io.ErrUnexpectedEOF into io.EOF where a frame
 			// may start (permanent known finding; the model reports the source's error)
-			if _, _, rt := verifc14.Ref("zstd", st.Wire, st.Fin); rt == "eof" {
+			if _, _, rt := verifc14.RefRaw("zstd", st.Wire, st.Fin); rt == "eof" {
 				class = "zstd-source-error-at-frame-boundary"
 			}
 		}
